@@ -7,6 +7,7 @@ here=os.path.dirname(os.path.dirname(os.path.abspath(__file__)))
 args=[a for a in sys.argv[1:] if not a.startswith("-")]; allprops="-a" in sys.argv
 env=dict(os.environ, GOFLAGS="-mod=mod", GOPROXY="off", GOSUMDB="off", GOTOOLCHAIN="local", GOWORK="off")
 reg=sorted({l.split()[0] for l in subprocess.check_output([os.environ.get("ANYCHECK",here+"/bin/anycheck"),"-list"],text=True).splitlines()})
+if os.environ.get("ANYCHECK_PROPS"): reg=[p for p in reg if p in os.environ["ANYCHECK_PROPS"].split(",")]  # delta runs after a change to the rules of a few properties
 items=[]
 idx=json.load(open(here+"/mutants/INDEX.json")) if os.path.exists(here+"/mutants/INDEX.json") else {}
 for p in sorted(glob.glob(here+"/mutants/*.diff")):
@@ -42,5 +43,6 @@ with concurrent.futures.ThreadPoolExecutor(8) as ex:
         else:
             others=[p for p,v in res.items() if isinstance(v,dict) and v["exit"]==1]
             print(f"{'NOCHECK':7s} {name:40s} {prop} {tgt if tgt else res} {('killed-by:'+','.join(others)) if others else ''}")
-if allprops and not args:
+if allprops and not args and not os.environ.get("ANYCHECK_PROPS"):
     json.dump(out,open(here+"/tools/killmatrix.json","w"),indent=1,sort_keys=True)  # only a complete run replaces the recorded matrix
+if os.environ.get("ANYCHECK_OUT"): json.dump(out,open(os.environ["ANYCHECK_OUT"],"w"),indent=1,sort_keys=True)  # delta runs: merged by hand into killmatrix.json
